@@ -268,20 +268,39 @@ func findMissingRules(c *Ctx) {
 	if fg := c.P.MustFunc(R, "R10g", "server.(*grpcServer).FindMissingBlobs"); fg != nil {
 		info := fg.Pkg.TypesInfo
 		valid, pass, ret := false, false, false
+		// the request is the parameter whose BlobDigests field is ranged over, validated and passed on
+		isReqDigests := func(e ast.Expr) bool {
+			sel, ok := ast.Unparen(e).(*ast.SelectorExpr)
+			if !ok || sel.Sel.Name != "BlobDigests" {
+				return false
+			}
+			o := identObj(info, sel.X)
+			return o != nil && o == paramObj(fg, 1)
+		}
+		var resultObj types.Object
 		ast.Inspect(fg.Decl.Body, func(m ast.Node) bool {
-			if rs, ok := m.(*ast.RangeStmt); ok && exprStr(rs.X) == "req.BlobDigests" {
+			if rs, ok := m.(*ast.RangeStmt); ok && isReqDigests(rs.X) && rs.Value != nil {
+				v := identObj(info, rs.Value)
 				for _, call := range callsIn(rs.Body, false) {
-					if calleeKey(info, call) == "server.(*grpcServer).validateHash" && exprStr(call.Args[0]) == exprStr(rs.Value)+".Hash" && exprStr(call.Args[1]) == exprStr(rs.Value)+".SizeBytes" {
-						valid = true
+					if calleeKey(info, call) == "server.(*grpcServer).validateHash" && len(call.Args) >= 2 {
+						h, okH := ast.Unparen(call.Args[0]).(*ast.SelectorExpr)
+						z, okZ := ast.Unparen(call.Args[1]).(*ast.SelectorExpr)
+						if okH && okZ && h.Sel.Name == "Hash" && z.Sel.Name == "SizeBytes" && identObj(info, h.X) == v && identObj(info, z.X) == v {
+							valid = true
+						}
 					}
 				}
 			}
 			if as, ok := m.(*ast.AssignStmt); ok && len(as.Rhs) == 1 {
-				if call, ok := as.Rhs[0].(*ast.CallExpr); ok && calleeKey(info, call) == "disk.(Cache).FindMissingCasBlobs" && exprStr(call.Args[1]) == "req.BlobDigests" && exprStr(as.Lhs[0]) == "missingBlobs" {
+				if call, ok := as.Rhs[0].(*ast.CallExpr); ok && calleeKey(info, call) == "disk.(Cache).FindMissingCasBlobs" && len(call.Args) == 2 && isReqDigests(call.Args[1]) {
 					pass = true
+					resultObj = identObj(info, as.Lhs[0])
 				}
 			}
-			if kv, ok := m.(*ast.KeyValueExpr); ok && exprStr(kv.Key) == "MissingBlobDigests" && exprStr(kv.Value) == "missingBlobs" {
+			return true
+		})
+		ast.Inspect(fg.Decl.Body, func(m ast.Node) bool {
+			if kv, ok := m.(*ast.KeyValueExpr); ok && exprStr(kv.Key) == "MissingBlobDigests" && resultObj != nil && identObj(info, kv.Value) == resultObj {
 				ret = true
 			}
 			return true
@@ -333,8 +352,8 @@ func keyspaceRulesV0(c *Ctx) {
 		base = NewBase(Hooks{EveryCall: func(x *Exec, call *ast.CallExpr, s St) []St {
 			if calleeKey(x.Fn.Info, call) == kAvail {
 				n++
-				kt, _ := base.Term(x, identNamed(x, "kind"), s)
-				zt, _ := base.Term(x, identNamed(x, "zstd"), s)
+				kt, _ := base.Term(x, roleIdent(x, "kind", "param:1"), s)
+				zt, _ := base.Term(x, roleIdent(x, "zstd", "param:5"), s)
 				isCAS, known := relLookup(s, "#1", "==", kt)
 				ok := s.Get("b:"+zt) == "false" || (known && isCAS)
 				R.Check(ok, "R15b", c.Cfg+"get:lookup-guard", c.P.Pos(call.Pos()), "the lookup is reached with zstd only for kind == CAS", "a compressed read of a non-CAS key space can reach the lookup", x.Trace()...)
@@ -714,6 +733,46 @@ func writeProtocolRules(c *Ctx) {
 		return
 	}
 	info := fi.Pkg.TypesInfo
+	// the two result channels by role: the Put result channel is the one the
+	// goroutine sends the error returned by Cache.Put to; the receive-loop
+	// channel is the other local `chan error`
+	putName, recvName := "putResult", "recvResult"
+	{
+		var putErr types.Object
+		ast.Inspect(fi.Decl.Body, func(n ast.Node) bool {
+			if as, ok := n.(*ast.AssignStmt); ok && len(as.Rhs) == 1 && len(as.Lhs) == 1 {
+				if call, ok := ast.Unparen(as.Rhs[0]).(*ast.CallExpr); ok && calleeKey(info, call) == "disk.(Cache).Put" {
+					putErr = identObj(info, as.Lhs[0])
+				}
+			}
+			return true
+		})
+		var chans []string
+		ast.Inspect(fi.Decl.Body, func(n ast.Node) bool {
+			switch v := n.(type) {
+			case *ast.SendStmt:
+				if putErr != nil && identObj(info, v.Value) == putErr {
+					if id, ok := v.Chan.(*ast.Ident); ok {
+						putName = id.Name
+					}
+				}
+			case *ast.AssignStmt:
+				if len(v.Lhs) == 1 && len(v.Rhs) == 1 {
+					if t := info.TypeOf(v.Lhs[0]); t != nil && t.String() == "chan error" {
+						if id, ok := v.Lhs[0].(*ast.Ident); ok {
+							chans = append(chans, id.Name)
+						}
+					}
+				}
+			}
+			return true
+		})
+		for _, ch := range chans {
+			if ch != putName {
+				recvName = ch
+			}
+		}
+	}
 	// R16a
 	{
 		var base *Base
@@ -721,7 +780,7 @@ func writeProtocolRules(c *Ctx) {
 		base = NewBase(Hooks{
 			Assign: func(x *Exec, as *ast.AssignStmt, s St) []St {
 				if len(as.Rhs) == 1 {
-					if u, ok := ast.Unparen(as.Rhs[0]).(*ast.UnaryExpr); ok && u.Op == token.ARROW && exprStr(u.X) == "putResult" {
+					if u, ok := ast.Unparen(as.Rhs[0]).(*ast.UnaryExpr); ok && u.Op == token.ARROW && exprStr(u.X) == putName {
 						if t, ok := base.LTerm(x, as.Lhs[0], s); ok {
 							s = s.Set("v:"+t, "putresult")
 						}
@@ -883,10 +942,10 @@ func writeProtocolRules(c *Ctx) {
 					fmt.Sprintf("Put can start with parsed=%s write_offset==0:%s within-limit=%v absent=%v", s.Get("parsed"), wo, within, notExists), x.Trace()...)
 				return []St{s.Set("started", "1")}, true
 			case *ast.SendStmt:
-				if exprStr(nd.Chan) == "recvResult" && exprStr(nd.Value) == "io.EOF" {
+				if exprStr(nd.Chan) == recvName && exprStr(nd.Value) == "io.EOF" {
 					ordEOF := 0
 					ast.Inspect(recv.Body, func(m ast.Node) bool {
-						if sd, ok := m.(*ast.SendStmt); ok && sd.Pos() <= nd.Pos() && exprStr(sd.Chan) == "recvResult" && exprStr(sd.Value) == "io.EOF" {
+						if sd, ok := m.(*ast.SendStmt); ok && sd.Pos() <= nd.Pos() && exprStr(sd.Chan) == recvName && exprStr(sd.Value) == "io.EOF" {
 							ordEOF++
 						}
 						return true
@@ -921,24 +980,40 @@ func writeProtocolRules(c *Ctx) {
 		cs := strings.ReplaceAll(exprStr(is.Cond), " ", "")
 		sends := false
 		for _, st := range is.Body.List {
-			if snd, ok := st.(*ast.SendStmt); ok && exprStr(snd.Chan) == "recvResult" && exprStr(snd.Value) != "io.EOF" {
+			if snd, ok := st.(*ast.SendStmt); ok && exprStr(snd.Chan) == recvName && exprStr(snd.Value) != "io.EOF" {
 				sends = true
 			}
 		}
 		_, rets := is.Body.List[len(is.Body.List)-1].(*ast.ReturnStmt)
+		_ = cs
 		if sends && rets {
-			switch cs {
-			case `req.ResourceName!=""&&resourceName!=req.ResourceName`:
-				wantErr["name-changed"] = true
-			case "cmp==casblob.Identity&&resp.CommittedSize>size":
-				wantErr["too-many-bytes"] = true
-			case "req.WriteOffset!=0":
-				wantErr["nonzero-offset"] = true
-			case "size>s.maxCasBlobSizeBytes":
-				wantErr["too-large"] = true
-			case `resourceName==""`:
-				wantErr["empty-name"] = true
-			}
+			// classify the rejecting branch by what its condition compares (fields by name,
+			// locals by being locals, either operand order)
+			ast.Inspect(is.Cond, func(m ast.Node) bool {
+				be, ok := m.(*ast.BinaryExpr)
+				if !ok {
+					return true
+				}
+				for _, pr := range [][2]ast.Expr{{be.X, be.Y}, {be.Y, be.X}} {
+					a, b := ast.Unparen(pr[0]), ast.Unparen(pr[1])
+					_, bIsLocal := b.(*ast.Ident)
+					bc, bIsConst := constString(info, b)
+					bk, bIsInt := constInt(info, b)
+					switch {
+					case be.Op == token.NEQ && selName(a) == "ResourceName" && bIsLocal && !bIsConst:
+						wantErr["name-changed"] = true
+					case selName(a) == "CommittedSize" && bIsLocal && ((be.Op == token.GTR && pr[0] == be.X) || (be.Op == token.LSS && pr[0] == be.Y)):
+						wantErr["too-many-bytes"] = true
+					case be.Op == token.NEQ && selName(a) == "WriteOffset" && bIsInt && bk == 0:
+						wantErr["nonzero-offset"] = true
+					case be.Op == token.EQL && bIsConst && bc == "" && selName(a) == "":
+						if _, aIsLocal := a.(*ast.Ident); aIsLocal {
+							wantErr["empty-name"] = true
+						}
+					}
+				}
+				return true
+			})
 		}
 		return true
 	})
@@ -1057,7 +1132,7 @@ func sizeLimitRules(c *Ctx) {
 				ord++
 				n++
 				key := fmt.Sprintf("%s%s:limit-compare#%d", c.Cfg, fi.Key, ord)
-				ok2 := be.Op == token.GTR && isLim(r) && !isLim(l)
+				ok2 := (be.Op == token.GTR && isLim(r) && !isLim(l)) || (be.Op == token.LSS && isLim(l) && !isLim(r))
 				R.Check(ok2, "R18b", key, c.P.Pos(be.Pos()), "the size is rejected only when strictly greater than the limit ("+exprStr(be)+")", "comparison "+exprStr(be)+" is not `size > limit`: items of exactly the limit would be refused (or larger ones admitted)")
 				return true
 			})
@@ -1065,27 +1140,46 @@ func sizeLimitRules(c *Ctx) {
 	}
 	R.Check(n >= 4, "R18b", c.Cfg+"limit-compares", "", "the four limit comparisons (disk.Put, HTTP PUT, Write, SpliceBlob) were found", fmt.Sprintf("found %d", n))
 	// what is compared is what is stored
-	for _, tc := range []struct{ fn, cmp, put string }{
-		{"server.(*httpCache).CacheHandler", "contentLength", "contentLength"},
-		{"server.(*grpcServer).SpliceBlob", "req.BlobDigest.SizeBytes", "req.BlobDigest.SizeBytes"},
-		{"server.(*grpcServer).Write", "size", "size"},
-		{kPut, "size", ""},
-	} {
-		fi := c.P.MustFunc(R, "R18b", tc.fn)
+	for _, fn := range []string{"server.(*httpCache).CacheHandler", "server.(*grpcServer).SpliceBlob", "server.(*grpcServer).Write", kPut} {
+		fi := c.P.MustFunc(R, "R18b", fn)
 		if fi == nil {
 			continue
 		}
-		cmpOK, putOK := false, tc.put == ""
+		info := fi.Pkg.TypesInfo
+		isLimE := func(e ast.Expr) bool {
+			n := selName(e)
+			return n == "maxCasBlobSizeBytes" || n == "maxBlobSize"
+		}
+		var compared []ast.Expr
+		var puts []ast.Expr
 		ast.Inspect(fi.Decl.Body, func(m ast.Node) bool {
-			if be, ok := m.(*ast.BinaryExpr); ok && be.Op == token.GTR && (strings.HasSuffix(exprStr(be.Y), ".maxCasBlobSizeBytes") || strings.HasSuffix(exprStr(be.Y), ".maxBlobSize")) && exprStr(be.X) == tc.cmp {
-				cmpOK = true
+			if be, ok := m.(*ast.BinaryExpr); ok {
+				switch {
+				case be.Op == token.GTR && isLimE(be.Y):
+					compared = append(compared, be.X)
+				case be.Op == token.LSS && isLimE(be.X):
+					compared = append(compared, be.Y)
+				}
 			}
-			if call, ok := m.(*ast.CallExpr); ok && calleeKey(fi.Pkg.TypesInfo, call) == "disk.(Cache).Put" && len(call.Args) == 5 && exprStr(call.Args[3]) == tc.put {
-				putOK = true
+			if call, ok := m.(*ast.CallExpr); ok && calleeKey(info, call) == "disk.(Cache).Put" && len(call.Args) == 5 {
+				puts = append(puts, call.Args[3])
 			}
 			return true
 		})
-		R.Check(cmpOK && putOK, "R18b", c.Cfg+tc.fn+":compared-is-stored", c.P.Pos(fi.Decl.Pos()), "the value compared with the limit ("+tc.cmp+") is the size handed to Put", fmt.Sprintf("compare found=%v put-with-same-size=%v", cmpOK, putOK))
+		ok := false
+		what := ""
+		for _, cmp := range compared {
+			what = exprStr(cmp)
+			if fn == kPut {
+				ok = identObj(info, cmp) != nil && identObj(info, cmp) == paramObj(fi, 3)
+			}
+			for _, p := range puts {
+				if sameValue(info, cmp, p) {
+					ok = true
+				}
+			}
+		}
+		R.Check(ok, "R18b", c.Cfg+fn+":compared-is-stored", c.P.Pos(fi.Decl.Pos()), "the value compared with the limit is the size handed to Put", fmt.Sprintf("compared %q, %d Put call(s) with another size expression", what, len(puts)))
 	}
 	// R18c
 	if fm := c.P.MustFunc(R, "R18c", "main.run"); fm != nil {
@@ -1166,7 +1260,7 @@ func sizeLimitRules(c *Ctx) {
 			Call: func(x *Exec, call *ast.CallExpr, lhs []ast.Expr, s St) ([]St, bool) {
 				if calleeKey(x.Fn.Info, call) == "cache.(Proxy).Contains" {
 					asked++
-					st, _ := base.Term(x, identNamed(x, "size"), s)
+					st, _ := base.Term(x, roleIdent(x, "size", "param:3"), s)
 					R.Check(relIs(s, "$recv.maxProxyBlobSize", "<", st, false), "R18d", c.Cfg+"Contains:ask-guard", c.P.Pos(call.Pos()), "the backend is asked only for requested size <= maxProxyBlobSize", "proxy.Contains reachable for an oversize request", x.Trace()...)
 					out := s
 					for _, l := range lhs {
@@ -1181,7 +1275,7 @@ func sizeLimitRules(c *Ctx) {
 					return
 				}
 				answered++
-				ft, _ := base.Term(x, identNamed(x, "foundSize"), s)
+				ft, _ := base.Term(x, roleIdent(x, "foundSize", "lhs:cache.(Proxy).Contains:1"), s)
 				R.Check(relIs(s, "$recv.maxProxyBlobSize", "<", ft, false), "R18d", fmt.Sprintf("%sContains:return#%d:answer-guard", c.Cfg, returnOrdinal(x.Fn, ret)), c.P.Pos(ret.Pos()), "a positive answer based on the backend is given only for foundSize <= maxProxyBlobSize", "an oversize backend object can be reported present", x.Trace()...)
 			},
 		})
